@@ -74,6 +74,8 @@ def run_function(name, short, unwind=6):
         return c.norm in ('Compiler::new', 'Compiler::default')
     ex.havoc(r'^Compiler::(?!%s$)' % re.escape(short), only_if=is_method)
     ex.havoc(r'^JsError::')
+    # shape inspection helpers of the AST: an arbitrary expression comes back (their loops are over the nesting depth of wrappers)
+    ex.havoc(r'^Expression::without_type_wrappers$')
     ex.havoc(r'^count_function_bindings$|^hoist::|^collect_|^BytecodeBuilder::')
     st = State()
     fn = ex.mir.get(name)
